@@ -144,6 +144,11 @@ func (g *rng) genScalar(legalOnly bool) gval {
 		return gval{kind: "duration", goVal: d, tok: "D:" + hxs(d.String()), text: d.String()}
 	case 13:
 		t := time.Unix(int64(g.intn(2000000000)), int64(g.intn(1000000000))).In(time.FixedZone("", (g.intn(27)-12)*3600))
+		if g.chance(1, 8) {
+			// instants a strict RFC 3339 writer refuses (years outside 0..9999, an offset of a whole day), the zero instant
+			t = []time.Time{time.Date(10000, 1, 2, 3, 4, 5, 6, time.UTC), time.Date(-1, 12, 31, 23, 59, 59, 0, time.UTC),
+				time.Date(2024, 5, 6, 7, 8, 9, 0, time.FixedZone("", 24*3600)), {}, time.Date(9999, 12, 31, 23, 59, 59, 999999999, time.UTC)}[g.intn(5)]
+		}
 		return gval{kind: "time", goVal: t, tok: "T:" + hxs(t.Format(time.RFC3339Nano)), text: t.Format(time.RFC3339Nano)}
 	case 14:
 		m := g.text(10, legalOnly)
@@ -324,6 +329,12 @@ func (g *rng) genWideAttrs(emptyKeys bool) []gattr {
 		src := out[g.intn(len(out)/2)].key
 		at := len(out)/2 + g.intn(len(out)-len(out)/2+1)
 		out = append(out[:at], append([]gattr{mk(src)}, out[at:]...)...)
+	}
+	if g.chance(1, 2) {
+		// two keys given four times each, in turns (a retry loop that appends try=i wait=j to the list it keeps)
+		for i := 1; i <= 4; i++ {
+			out = append(out, mk("try"), mk("wait"))
+		}
 	}
 	if g.chance(1, 3) {
 		at := 1 + g.intn(len(out)-1)
